@@ -27,7 +27,7 @@ var c10Networks = []string{"mainnet", "testnet", "devnet"}
 func VerifC10SigExists() {
 	epoch := verifU64("epoch")
 	ri := verifChoice("root", verifParam("roots", 2))
-	ni := verifChoice("network", len(c10Networks))
+	ni := verifChoice("network", verifParam("networks", len(c10Networks)))
 	root, err := cid.Cast(c10RootBytes(ri))
 	verifAssert(err == nil, "C10.sigexists: harness CID")
 
